@@ -1,3 +1,70 @@
+//! 1. stageleft staging of this crate's flows.
+//! 2. C40 / Paxos: the shipped `hydro_test::cluster::paxos::paxos_core` cannot be compiled by the Hydro
+//!    simulator (it uses `.max()` on an unbounded top-level stream — "Reduce with optional intermediates is not
+//!    yet supported in simulator" — and wall-clock `tokio::time` timers), so it is run through the PRODUCTION
+//!    code generator (`generate_embedded`) instead; tests/paxos.rs owns the network, the tick schedule and a
+//!    paused tokio clock. Output: $OUT_DIR/paxos_emb.rs (locations `proposer` and `acceptor`).
 fn main() {
     stageleft_tool::gen_final!();
+    gen_paxos();
+}
+
+fn gen_paxos() {
+    use hydro_lang::compile::builder::FlowBuilder;
+    use hydro_lang::live_collections::stream::TotalOrder;
+    use hydro_lang::location::Location;
+    use hydro_lang::prelude::nondet;
+    use hydro_test::cluster::paxos::{Acceptor, PaxosConfig, Proposer, paxos_core};
+
+    println!("cargo::rerun-if-changed=build.rs");
+    let out_dir = std::env::var("OUT_DIR").unwrap();
+
+    let mut flow = FlowBuilder::new();
+    let proposers = flow.cluster::<Proposer>();
+    let acceptors = flow.cluster::<Acceptor>();
+    let payloads = proposers.embedded_input::<u32>("payloads");
+    // never fed by the harness: no checkpointing / log garbage collection
+    let checkpoints = acceptors.embedded_input::<usize>("checkpoints").max();
+    let (ballots, sequenced) = paxos_core(
+        &proposers,
+        &acceptors,
+        checkpoints,
+        |_new_leader_ballots| payloads,
+        PaxosConfig {
+            f: 1,
+            i_am_leader_send_timeout: 1,
+            i_am_leader_check_timeout: 2,
+            i_am_leader_check_timeout_delay_multiplier: 1,
+        },
+        nondet!(/** explored by the harness scheduler */),
+        nondet!(/** explored by the harness scheduler */),
+    );
+    ballots.embedded_output("ballots");
+    sequenced
+        .assume_ordering::<TotalOrder>(nondet!(/** observer */))
+        .embedded_output("sequenced");
+    // The embedded backend needs every network channel to be named; the shipped Paxos leaves its channels
+    // anonymous. Names are identifiers of the generated API only, so give the anonymous ones positional names
+    // (`ch0`, `ch1`, … in IR traversal order) through the public IR rewrite hook; nothing else is touched.
+    let mut next_channel = 0usize;
+    let code: syn::File = flow
+        .optimize_with(|ir| {
+            hydro_lang::compile::ir::transform_bottom_up(
+                ir,
+                &mut |_root| {},
+                &mut |node| {
+                    if let hydro_lang::compile::ir::HydroNode::Network { name, .. } = node {
+                        if name.is_none() {
+                            *name = Some(format!("ch{next_channel}"));
+                            next_channel += 1;
+                        }
+                    }
+                },
+                false,
+            );
+        })
+        .with_cluster(&proposers, "proposer")
+        .with_cluster(&acceptors, "acceptor")
+        .generate_embedded("hydro_test");
+    std::fs::write(format!("{out_dir}/paxos_emb.rs"), prettyplease::unparse(&code)).unwrap();
 }
